@@ -210,9 +210,26 @@ def snapshotOf {κ π : Type} [DecidableEq κ] (le : κ → κ → Bool) (arriva
 /-! ### output manifest -/
 
 /-- `Backend.on_update`: `[a for a in page.static_assets if a.can_upload()]` (enumeration
-order of a set) then `.sort(key=lambda a: a.key)`. An asset is (key, uploadable, payload). -/
+order of a set) then `.sort(key=…)`. An asset is (sort key, uploadable, payload). -/
 def manifestAssets {κ π : Type} (le : κ → κ → Bool) (enumeration : List (κ × Bool × π)) : List (κ × Bool × π) :=
   isort (keyLe Prod.fst le) (enumeration.filter (fun a => a.2.1))
+
+/-- The sort key of `Backend.on_update`: `(asset.key, asset.fileid.as_posix())`, a pair of strings compared as Python
+compares tuples - which is `pathLe` on the two-element list. `asset.key` is the spelling used in the source text (two
+different files can share it: a relative path used in two directories); `fileid` is what makes two assets of a page
+different members of the `static_assets` set. -/
+def assetSortKey (key fileid : List Nat) : List (List Nat) := [key, fileid]
+
+/-- an asset as the set holds it: (spelling, fileid, uploadable, payload) -/
+abbrev Asset (π : Type) := List Nat × List Nat × Bool × π
+
+/-- `Backend.on_update` on the set enumerated in the given order -/
+def manifestOfSet {π : Type} (enumeration : List (Asset π)) : List (List (List Nat) × Bool × π) :=
+  manifestAssets pathLe (enumeration.map (fun a => (assetSortKey a.1 a.2.1, a.2.2.1, a.2.2.2)))
+
+/-- the code before the repair: `.sort(key=lambda a: a.key)` -/
+def manifestOfSetKeyOnly {π : Type} (enumeration : List (Asset π)) : List (List Nat × Bool × π) :=
+  manifestAssets bytesLe (enumeration.map (fun a => (a.1, a.2.2.1, a.2.2.2)))
 
 /-- `self.diagnostics[path].extend(diagnostics)` on a `defaultdict(list)` -/
 def extendAt {κ δ : Type} [DecidableEq κ] (k : κ) (ds : List δ) : List (κ × List δ) → List (κ × List δ)
